@@ -232,7 +232,10 @@ def explore_binary(r, h1, rnd, n, stdlib):
                 case = {"steps": [{"op": "analyze", "path": p, "text": t} for p, t in project.items()]}
                 ids = core.text_ids(case)
                 term = L.clist(["Op20 (" + core.coq_step(st, None, ids, stdlib)[3:] + ")" for st in case["steps"]])
-                codes = core.eval_in_coq("C20_class", MODULE, "class_C20", [(0, term)])
+                import extract
+                disk = L.clist(["(%s, %s)" % (L.cpath(p), L.ccached(extract.extract(t, stdlib), ids.get(t, 0)))
+                                for p, t in sorted(project.items())])
+                codes = core.eval_in_coq("C20_class", MODULE, "class_C20_on_disk", [(0, "(%s, %s)" % (disk, term))])
                 in_class = bool(codes[0] and codes[0][0][1] & 16)
                 for f in fails:
                     f["order_sensitive_class"] = in_class
